@@ -214,10 +214,26 @@ class SchedImpl:
         us = (d - dtm.datetime(1970, 1, 1)) // dtm.timedelta(microseconds=1)
         return str(us * 1000 - self.base)
 
+    def _lr(self, c) -> str:
+        """`last_run_datetime` of the public API, as an instant (same conversion and cross-check as `_nr`)"""
+        d = c.last_run_datetime
+        if d is None:
+            return '-'
+        ns = ns_of_instant(c._job.last_run)
+        if self.tz != 'UTC':
+            from zoneinfo import ZoneInfo
+            want = (dtm.datetime(1970, 1, 1, tzinfo=dtm.timezone.utc) + dtm.timedelta(microseconds=ns // 1000)) \
+                .astimezone(ZoneInfo(self.tz)).replace(tzinfo=None)
+        else:
+            want = dtm.datetime(1970, 1, 1) + dtm.timedelta(microseconds=ns // 1000)
+        if d != want:
+            return f'API-MISMATCH:{d.isoformat()}!={want.isoformat()}'
+        return str(ns - self.base)
+
     def _state(self) -> list[str]:
         lines = []
         for h, c in self.controls.items():
-            lines.append(f'st {h} {c.status.value} {self._nr(c)}')
+            lines.append(f'st {h} {c.status.value} {self._nr(c)} {self._lr(c)}')
         keys = []
         for k, _ in self.store.items():
             keys.append(self.auto_key.get(k, k))
